@@ -95,9 +95,28 @@ def code_fn(cfg):
 
   def fn(w, b, X, y, keys):
     grad_fn = make_grad(cfg, X, y)
+    if cfg.get('backend') == 'pmap':
+      # real pmap backend code; symbolically through the API model (pmap = vmap), in replays on the real jax.pmap when the
+      # process has enough (forced host) devices
+      from . import c02
+      ndev = cfg.get('ndev', 2)
+      if isinstance(w, jax.core.Tracer) or jax.local_device_count() < ndev:
+        with c02.pmap_model(ndev):
+          with fec.for_each_client_backend(fec.ForEachClientPmapBackend()):
+            alg = fed_avg.federated_averaging(grad_fn, make_opt(cfg['copt'], 'c'), make_opt(cfg['sopt'], 's'), hparams_of(cfg))
+          return _rounds(cfg, alg, w, b, keys)
+      with fec.for_each_client_backend(fec.ForEachClientPmapBackend(jax.local_devices()[:ndev])):
+        alg = fed_avg.federated_averaging(grad_fn, make_opt(cfg['copt'], 'c'), make_opt(cfg['sopt'], 's'), hparams_of(cfg))
+      return _rounds(cfg, alg, w, b, keys)
     with fec.for_each_client_backend(cfg.get('backend', 'jit')):
       alg = fed_avg.federated_averaging(grad_fn, make_opt(cfg['copt'], 'c'), make_opt(cfg['sopt'], 's'),
                                         hparams_of(cfg))
+    return _rounds(cfg, alg, w, b, keys)
+  return fn
+
+
+def _rounds(cfg, alg, w, b, keys):
+  if True:
     state = alg.init({'w': w, 'b': b})
     ds = datasets(cfg)
     ids = client_ids(cfg)
@@ -112,7 +131,6 @@ def code_fn(cfg):
         raise AssertionError('diagnostics keys %r != participating client ids' % (sorted(diag.keys()),))
       diags.append({k.decode(): v for k, v in sorted(diag.items())})
     return {'params': state.params, 'opt_state': state.opt_state, 'diag': diags}
-  return fn
 
 
 def ref_fn(cfg):
@@ -192,7 +210,8 @@ def confirm(run, cfg, cex, sym):
     data = {'cfg': cfg, 'args': [rng.randint(-3, 4, size=a.shape).tolist() if i < 4 else np.zeros(a.shape, int).tolist()
                                  for i, a in enumerate(sym)]}
   key = 'cfg:' + ','.join('%s=%s' % (k, cfg[k]) for k in sorted(cfg) if k not in ('order',))
-  ok, msg = replay_subprocess('C01', data)
+  env = {'XLA_FLAGS': '--xla_force_host_platform_device_count=%d' % cfg.get('ndev', 2)} if cfg.get('backend') == 'pmap' else None
+  ok, msg = replay_subprocess('C01', data, env)
   run.violation(key, 'FedAvg round differs from its definition for %s: %s' % (json.dumps(cfg), msg), data, ok)
   return ok
 
@@ -242,6 +261,8 @@ def configs(tier):
   cfgs.append(dict(base, sizes=[3, 2], batch=1))
   cfgs.append(dict(base, sizes=[3, 2], drop=True))
   cfgs.append(dict(base, sizes=[2, 0, 3], backend='debug'))
+  cfgs.append(dict(base, sizes=[2, 0, 3], backend='pmap', ndev=2))
+  cfgs.append(dict(base, sizes=[3, 1, 2], backend='pmap', ndev=2, grad='uf', copt='uf', sopt='uf'))
   cfgs.append(dict(base, sizes=[3, 2], copt='momentum', sopt='momentum', rounds=2))
   cfgs.append(dict(base, sizes=[3, 2], grad='linrng', batch=1))
   cfgs.append(dict(base, sizes=[2, 0, 3], grad='uf', copt='uf', sopt='uf'))
